@@ -35,6 +35,9 @@ Scenarios == {
   [name |-> "timeouts_to_failure", cfg |-> Base, steps |-> <<Q(1, "query")>> \o Tmo \o Tmo \o Tmo \o Tmo],
   [name |-> "set_servers_in_flight", cfg |-> Base, steps |-> <<Q(1, "query"), [op |-> "setservers", csv |-> "10.0.0.2,10.0.0.3"], R(1, "ok")>>],
   [name |-> "reinit", cfg |-> Base, steps |-> <<Q(1, "query"), [op |-> "reinit"], R(1, "ok")>>],
+  [name |-> "reinit_file_config", cfg |-> Base @@ [domains |-> <<"d1.test", "d2.test">>, ndots |-> 1, viafile |-> 1],
+     steps |-> <<Q(1, "query"), [op |-> "reinit"], R(1, "ok"),
+                 [op |-> "search", t |-> 2, name |-> "n2", qt |-> 1], [op |-> "reply", tx |-> "name:n2.", kind |-> "nx"], [op |-> "reply", tx |-> "name:n2.", kind |-> "ok"]>>],
   [name |-> "cancel_pending", cfg |-> Base, steps |-> <<Q(1, "query"), Q(2, "search"), [op |-> "cancel"]>>],
   [name |-> "nested_request", cfg |-> Base,
      steps |-> <<[op |-> "query", t |-> 1, name |-> "n1.test", qt |-> 1, nest |-> [op |-> "query", t |-> 101, name |-> "n101.test", qt |-> 1]], R(1, "ok"), R(101, "ok")>>],
